@@ -124,8 +124,14 @@ def run(ctx):
     # ---------------- R5 transfer loops
     for nm_, sysc in (('read_all', 'read'), ('write_all', 'write')):
         f = P.fn(FS + '::' + nm_)
-        cnt = q.param_by_index(f, 2)
-        lps = [L for L in q.loops(f) if cnt in f.subtree_refs(f.N(L).get('cond', L) if f.N(L).get('cond', -1) not in (None, -1) else L)]
+        cntp = q.param_by_index(f, 2)
+        # the remaining count: the parameter itself, or a local that starts as the parameter
+        cands = [cntp] + [d['ref'] for i in f.all_nodes() if f.N(i)['k'] == 'DeclStmt' for d in f.N(i)['decls'] if d.get('init') is not None and f.ref_of(d['init']) == cntp]
+        lps, cnt = [], cntp
+        for cv_ in cands:
+            l_ = [L for L in q.loops(f) if cv_ in f.subtree_refs(f.N(L).get('cond', L) if f.N(L).get('cond', -1) not in (None, -1) else L)]
+            if l_ and q.writes_to(f, cv_, l_[0]):
+                lps, cnt = l_, cv_
         sc = [i for i in f.calls() if f.callee(i) == sysc or (f.callee(i) or '').endswith('::' + sysc)]
         okb = len(lps) == 1 and len(sc) == 1 and f.contains(lps[0], sc[0])
         ctx.check(okb, R5, '%s:one-loop-around-%s' % (nm_, sysc), 'expected one loop on the remaining count around the system call', f.where)
@@ -138,7 +144,7 @@ def run(ctx):
         for (d_, v_) in [(d_, v_) for r_ in [x for x in f.subtree_refs(L) if x.startswith('v:')] for (d_, v_) in f.defs_of_var(r_)]:
             if v_ is not None and sc[0] in set(f.walk(v_)):
                 resv = [r_ for r_ in f.subtree_refs(d_) if r_.startswith('v:')][0] if f.N(d_)['k'] != 'DeclStmt' else [dd['ref'] for dd in f.N(d_)['decls'] if dd.get('init') is not None and sc[0] in set(f.walk(dd['init']))][0]
-        ctx.check(resv is not None, R5, '%s:result-kept' % nm_, 'the result of the system call is not kept', f.loc(sc[0]))
+        ctx.check(resv is not None and f.ref_of(f.args(sc[0])[2]) == cnt, R5, '%s:asks-for-the-remaining-count:result-kept' % nm_, 'the system call is not asked for the remaining count, or its result is not kept', f.loc(sc[0]))
         if resv is None:
             continue
         RES = _lin18.Lin.atom(resv)
@@ -328,7 +334,8 @@ def run(ctx):
                 resets.append(i)
                 closing_helpers.add(i)
         rv = fcntl_result_var(f, c)
-        g_got = f.gate_edges(lambda atom, pol, f=f, rv=rv: f.N(atom)['k'] == 'BinaryOperator' and f.N(atom).get('op') in ('<', '!=') and rv is not None and f.ref_of(f.N(atom)['ch'][0]) == rv and f.const_value(f.N(atom)['ch'][1]) == 0 and pol is False)
+        g_got = f.gate_edges(lambda atom, pol, f=f, rv=rv, c=c: f.N(atom)['k'] == 'BinaryOperator' and f.N(atom).get('op') in ('<', '!=') and
+                             ((rv is not None and f.ref_of(f.N(atom)['ch'][0]) == rv) or f.strip(f.N(atom)['ch'][0]) == c) and f.const_value(f.N(atom)['ch'][1]) == 0 and pol is False)
 
         def same(field):
             def pred(atom, pol, f=f):
